@@ -42,10 +42,22 @@ TRUSTED = [
     "the abstract part sent to the model is read from the real objects by this module (kind by isinstance, start/end, referential attributes)",
 ]
 PARTIAL = [
-    "simple_repeats / voltas / no_repeats shape theorems are proved over the segment graphs of those layouts; that add_segments yields these graphs is proved for the canonical layouts in Props (decide on instances r<=3, k<=3) and compared on every generated layout",
-    "termination of the enumeration is proved for the shape families; for arbitrary graphs only fuel-monotonicity (more fuel never changes a result) is proved",
-    "ending numbers >= 10 are outside the model (Layout.supported)",
-    "musical correctness of the segment graph for navigation marks is not claimed (walk validity is relative to the graph the code builds)",
+    "simple_repeats is proved for all r over the chain segment tables (2^r paths, maximal/minimal, termination with fuel 2n+1); that add_segments "
+    "builds exactly these tables is proved by evaluation for all layouts of up to 4 sections on a grid (simple_repeats_layout_partial) and compared "
+    "on every generated layout, not proved for symbolic boundary times",
+    "voltas: finite table (k <= 3 brackets carrying one or two numbers, with/without music before and after), evaluated through mkSegments and "
+    "getPaths (voltas_upto3_partial); no theorem for k > 3 or symbolic times",
+    "termination of the enumeration is proved for the chain family only; for arbitrary tables only fuel-monotonicity (a result never depends on "
+    "the fuel) is proved - the code itself recurses without bound on tables with a forced backward jump",
+    "ids_suffixed_partial: the suffix is the rank among same-id notes by onset; that this rank is the visit number of the note's segment is "
+    "compared and checked by the oracle, not proved",
+    "length_sum assumes a part well formed for its segmentation (no copied object reaches beyond its segment, something ends at the end of the "
+    "last visited segment); otherwise the code keeps the overhanging end and the model mirrors it",
+    "signatures and clefs are outside copies_per_visit (copied only when different from the previous one; mirrored by sigSkip and compared)",
+    "ending numbers >= 10 are outside the model (Layout.supported): the code cuts 8 characters off '<n>_Volta_<ID>' and then fails",
+    "musical correctness of the segment graph for navigation marks is not claimed (walk validity is relative to the graph the code builds); "
+    "`'END' <= chr(65+i)` makes END count as a jump to the past for segments F and later (mirrored by Dest.lePast)",
+    "Fermata.ref / Note.fermata / Beam references are not in the property's list of references and are not remapped by the code",
 ]
 RULE = ("parts from gen_score.random_part_desc (3-10 bars, ties over barlines, signature/clef/division changes) with a generated "
         "repeat structure at bar lines: 0-4 laminar repeats, volta groups with 1-3 brackets and single or comma-separated numbers, "
@@ -136,7 +148,7 @@ def gen_structure(rng, bars):
         # a stray bracket without a repeat
         s = rng.randrange(0, nb)
         extras.append(["Ending", times[s], times[min(nb, s + 1)], {"number": rng.choice(["1", "2", "1,2"])}])
-    form = rng.choice(["none", "none", "none", "dc", "dcfine", "ds", "dsfine", "dccoda", "dscoda", "junk", "dcmid"])
+    form = rng.choice(["none", "none", "none", "dc", "dcfine", "dcfine", "ds", "dsfine", "dccoda", "dscoda", "junk", "dcmid"])
     def bt(lo=0, hi=nb):
         return times[rng.randint(lo, hi)]
     if form == "dc":
@@ -234,7 +246,7 @@ def gen_case(rng, big=False):
         pols.append({"pol": "score", "upd": rng.random() < 0.5, "il": rng.random() < 0.5, "pick": [0, 0]})
     if rng.random() < 0.08:
         pols.append({"pol": "align", "upd": True, "il": True, "pick": [rng.random(), rng.random()]})
-    return {"k": "gen", "part": d, "pols": pols}
+    return {"k": "gen", "part": d, "pols": pols, "prereg": rng.random() < 0.15}
 
 
 def shape_case(rng, kind):
@@ -713,6 +725,18 @@ def simple_layout(L):
     return reps
 
 
+def dacapo_fine_layout(L):
+    """the part starts at 0, a DaCapo at the last time point, at most one Fine strictly inside, nothing else:
+    returns the time of the Fine (or None when there is none) wrapped in a tuple, else None"""
+    if L["repeats"] or L["endings"] or L["codas"] or L["tocodas"] or L["segnos"] or L["dalsegnos"]:
+        return None
+    if L["first"] != 0 or L["dacapos"] != [L["last"]] or len(L["fines"]) > 1:
+        return None
+    if L["fines"] and not (L["first"] < L["fines"][0] < L["last"]):
+        return None
+    return (L["fines"][0] if L["fines"] else None,)
+
+
 def volta_layout(L):
     """one repeated section with brackets 1..N in order: body [a, v0), brackets [v0,v1) [v1,v2) ...;
     returns (a, [bracket spans], [numbers]) else None"""
@@ -741,6 +765,14 @@ def volta_layout(L):
 
 # ------------------------------------------------------------------------------ evaluation
 def evaluate(desc):
+    try:
+        return _evaluate(desc)
+    except _Timeout:
+        # an enumeration / unfolding that does not finish in the time box: outside the compared domain
+        return Eval()
+
+
+def _evaluate(desc):
     import partitura.score as S
 
     ev = Eval()
@@ -755,6 +787,10 @@ def evaluate(desc):
         return ev
     ltok = layout_tokens(L)
     ptok = part_tokens(part, objs)
+    if desc.get("prereg"):
+        # the caller registered the segments first (Part.segments is documented to do that): unfolding must
+        # leave them as they are
+        _, epre = guarded(lambda: S.add_segments(part))
     f0 = G.fingerprint_part(part, with_ids=True)
 
     # ---- segment table, from an independent second build (add_segments is documented to register them)
@@ -779,6 +815,7 @@ def evaluate(desc):
     keyparts = []
     simple = simple_layout(L)
     volta = volta_layout(L)
+    dcfine = dacapo_fine_layout(L)
 
     for pi, pol in enumerate(desc["pols"]):
         nr, ar, il = FLAGS[pol["pol"]](pol)
@@ -793,6 +830,10 @@ def evaluate(desc):
         if e is not None:
             ev.impl.append("err")
             plist = None
+            if (simple is not None or volta is not None or not nontrivial or dcfine is not None) and L["first"] < L["last"]:
+                ev.oracle.append("raises: %s: get_paths raises %s on a part with %s" % (
+                    tagname, type(e).__name__, "simple repeats" if simple is not None else "a standard volta group" if volta is not None
+                    else "da capo al fine" if dcfine is not None else "no repeat structure"))
         else:
             plist = [list(p.path) for p in paths]
             ev.impl.append(W.f_list(lambda p: W.f_list(seg_index, p), plist))
@@ -847,6 +888,11 @@ def evaluate(desc):
                     want = pre + body + [br[-1]] + post
                     if plist[:1] != [want]:
                         ev.oracle.append("minimal: voltas: path %r, expected %r (once, with the last ending)" % (plist[:1], want))
+            if dcfine is not None and pol["pol"] in ("max", "score"):
+                # D.C. (al Fine): the whole part, then again from the start up to the Fine (to the end without one)
+                want = ["A", "B", "A"] if dcfine[0] is not None else ["A", "A"]
+                if plist[:1] != [want]:
+                    ev.oracle.append("maximal: da capo%s: path %r, expected %r" % (" al fine" if dcfine[0] is not None else "", plist[:1], want))
             if not nontrivial and plist != [["A"]]:
                 ev.oracle.append("identity: no repeat structure but paths are %r" % (plist,))
 
@@ -885,7 +931,7 @@ def evaluate(desc):
                 ev.oracle.append("score: unfold_part_maximal(Score) raised %s" % type(e).__name__)
             continue
         if pol["pol"] == "align":
-            if e is None and us:
+            if e is None and us and len(us) <= 64:
                 vi = picks[-1]
                 ids = [n.id for n in us[vi].notes_tied]
                 al = [{"label": "match", "score_id": i, "performance_id": "p%d" % k} for k, i in enumerate(ids)]
@@ -895,7 +941,7 @@ def evaluate(desc):
                 cands = [k for k, c in enumerate(cov) if c == best]
                 ln = [len(us[k].notes_tied) for k in cands]
                 wantk = cands[ln.index(min(ln))]
-                r, e3 = guarded(lambda: S.unfold_part_alignment(part, _copy.deepcopy(al)))
+                r, e3 = guarded(lambda: S.unfold_part_alignment(part, _copy.deepcopy(al)), 40)
                 if e3 is not None:
                     ev.oracle.append("alignment: unfold_part_alignment raised %s: %s" % (type(e3).__name__, str(e3)[:80]))
                 elif canon_variant(r, objs) != canon_variant(us[wantk], objs):
